@@ -109,7 +109,7 @@ def run(ctx):
     cli = cq.call_blocks(lambda c: c.endswith('QueueInfo::cli_resource_descriptor'))
     ctx.require(gw and cli, 'R17.9: get_worker_resources / cli_resource_descriptor in create_queue_worker_query')
     OPT_ = 'core::option::Option'
-    keys_ = [k for k, d in scrutinees(cq, OPT_).items() if d['root'] == cq.term[gw[0]]['d'][0]]
+    keys_ = sorted([k for k, d in scrutinees(cq, OPT_).items() if d['root'] == cq.term[gw[0]]['d'][0]], key=len)
     vs_ = variants_at(cq, OPT_, cli[0], keys_[0]) if keys_ else None
     ctx.ob('R17.9', 'create_queue_worker_query|known worker resources first', vs_ is not None and set(vs_) == {'None'},
            f'the CLI resource hint is consulted only when no worker resources are known for the queue (observed: hint read under get_worker_resources() = {sorted(vs_) if vs_ else vs_})', cq.loc(cli[0]))
